@@ -25,11 +25,13 @@ pub struct DagCfg {
     /// exclude rand/mix (bit-hash ops) — used where NaN payloads would otherwise matter
     pub no_hash: bool,
     pub const_roots: bool,
+    /// extra choice clauses appended as a chain (forces many clauses)
+    pub choice_chain: usize,
 }
 impl Default for DagCfg {
     fn default() -> Self {
         DagCfg { max_ops: 60, max_outputs: 4, max_free_vars: 3, p_const_operand: 0.25, p_special_const: 0.3,
-                 p_recent: 0.5, choice_heavy: false, no_hash: false, const_roots: true }
+                 p_recent: 0.5, choice_heavy: false, no_hash: false, const_roots: true, choice_chain: 0 }
     }
 }
 
@@ -101,6 +103,17 @@ pub fn gen_dag(r: &mut Rng, cfg: &DagCfg) -> Dag {
         };
         // constants produced by folding stay out of the pool unless asked for
         if !matches!(ctx.get_op(n), Some(Op::Const(_))) { pool.push(n); }
+    }
+    if cfg.choice_chain > 0 {
+        let mut acc = pool[pool.len() - 1];
+        for _ in 0..cfg.choice_chain {
+            let b = *r.pick(&[BinaryOpcode::Min, BinaryOpcode::Max, BinaryOpcode::Min, BinaryOpcode::Max, BinaryOpcode::And, BinaryOpcode::Or]);
+            let other = if r.chance(0.3) { let c = gen_tame(r); ctx.constant(c) } else { pool[r.below(pool.len())] };
+            let fresh = { let c = gen_tame(r); let x = pool[r.below(pool.len().min(6))]; ctx.add(x, c).unwrap() };
+            let other = if r.chance(0.5) { fresh } else { other };
+            let n = if r.chance(0.5) { apply_bin(&mut ctx, b, acc, other) } else { apply_bin(&mut ctx, b, other, acc) };
+            if !matches!(ctx.get_op(n), Some(Op::Const(_))) { pool.push(n); acc = n; }
+        }
     }
     let n_out = r.range(1, cfg.max_outputs);
     let mut roots = vec![];
